@@ -109,7 +109,7 @@ def inh_shapes(depth4=False):
     return out
 
 
-def inh_lang(shape, kind='or', depth4=False, ttc=None, tags=(), meta=None, requires=None):
+def inh_lang(shape, kind='or', depth4=False, ttc=None, tags=(), meta=None, requires=None, distinct=True):
     """Language for one shape.  Every level's reaches names its own marker step m<Level> (all
     markers live on the root).  Every re-declaration repeats type / TTC / tags / meta (DESIGN C02)."""
     lv = inh_levels(depth4)
@@ -125,7 +125,16 @@ def inh_lang(shape, kind='or', depth4=False, ttc=None, tags=(), meta=None, requi
         c = shape[t]
         if c != 'absent':
             rs = None if c == 'none' else [S('m' + t)]
-            steps.append(step('sx', kind, reaches=rs, overrides=(c != 'ext'), ttc=ttc, tags=tags,
-                              meta=meta, requires=requires))
+            # every level's declaration carries its own tags / meta (and TTC for or/and steps): a '->'
+            # redefinition replaces them, '+>' and a bare re-declaration keep the inherited ones
+            k = [x for x, _ in lv].index(t)
+            tg, mt, tc = tuple(tags), dict(meta or {}), ttc
+            if distinct:
+                tg = tg + ('tag' + t,)
+                mt['user'] = 'declared on ' + t
+                if tc is None and kind in ('or', 'and'):
+                    tc = fn('Exponential', float(k + 1))
+            steps.append(step('sx', kind, reaches=rs, overrides=(c != 'ext'), ttc=tc, tags=tg,
+                              meta=mt, requires=requires))
         assets.append(asset(t, sup=p, steps=steps))
     return spec(assets, [assoc('Link', 'Rr', 'ins', '*', '*', 'outs', 'Rr')], lang_id='org.verif.inh')
